@@ -408,11 +408,11 @@ static void contig_stream_history(int thorough)
  * (right after the dictionary; somewhere else; ending inside the dictionary, i.e. overwriting its beginning like a ring buffer that wraps), LZ4_saveDict
  * (any size, possibly overlapping), LZ4_loadDict / LZ4_loadDictSlow (sizes 0..> 64 KB), LZ4_resetStream_fast.  Every block is also decoded by the real
  * decoder against the declared history (everything since the last reset / load, the loaded dictionary included). ---- */
-static u64 n_xs_ops, n_xs_contig, n_xs_apart, n_xs_inside, n_xs_save, n_xs_load, n_xs_reset, n_xs_failed;
+static u64 n_xs_attach, n_xs_attached_calls, n_xs_ops, n_xs_contig, n_xs_apart, n_xs_inside, n_xs_save, n_xs_load, n_xs_reset, n_xs_failed;
 static void xstream_history(int thorough)
 {
     enum { MAXO = 12 };
-    size_t A = thorough ? (900u << 10) : (420u << 10); u8* arena = xalloc(A + 16); u8* H = xalloc(4 * A + 70000); size_t hl = 0; LZ4_stream_t* st = LZ4_createStream();
+    size_t A = thorough ? (900u << 10) : (420u << 10); u8* arena = xalloc(A + 16); u8* H = xalloc(4 * A + 70000); size_t hl = 0; LZ4_stream_t* st = LZ4_createStream(); LZ4_stream_t* dstream = LZ4_createStream(); LZ4_stream_t dsCopy; const u8* adS = NULL; const u8* adE = NULL;
     const LZ4_stream_t_internal* in = &st->internal_donotuse; rec_t r; int nops = 3 + (int)rndn(MAXO - 2), k, nouts = 0, done = 0, nrec = 0; u8* outs[MAXO]; u8* copies[MAXO]; int ncopies = 0; size_t i;
     static const char* const pre[] = {"2026-09-29T08:00:", "GET /index.html?id=", "user=bob action=", "WARN retry while ", "", "zzzzzzzzzzzzzzzzzzzzzz"};
     for (i = 0; i < A; i++) arena[i] = rndp(50) ? (u8)('a' + rndn(6)) : (u8)rnd();
@@ -420,20 +420,21 @@ static void xstream_history(int thorough)
     rec_begin(&r, 16); rec_int(&r, 0); rec_bytes(&r, NULL, 0); rec_int(&r, 0); rec_int(&r, 0); rec_bytes(&r, NULL, 0); rec_int(&r, 0);      /* starts from a fresh stream */
     for (k = 0; k < nops && !done && r.n + 8 < MAXARGS; k++) {
         const u8* dct = in->dictionary; size_t ds = in->dictSize; const u8* E = ds ? dct + ds : NULL; int kind = (int)rndn(100);
-        int dictInArena = ds && dct >= arena && E <= arena + A;
-        if (kind < 72) {                                                       /* ---- compress ---- */
+        int dictInArena = ds && dct >= arena && E <= arena + A; int attached = in->dictCtx != NULL;
+        const u8* qd = attached ? in->dictCtx->dictionary : dct; size_t qs = attached ? in->dictCtx->dictSize : ds; const u8* qE = qd + qs;      /* what the next block may usefully quote */
+        if (kind < 68) {                                                       /* ---- compress ---- */
             static const size_t special[] = {0, 1, 3, 12, 13, 14, 4095, 4097, 65535, 65536, 65547, 70000};
             size_t n = rndp(82) ? 20 + rndn(rndp(70) ? 1500 : (thorough ? 40000 : 9000)) : special[rndn(12)], j = 0; u8* src = NULL; int place = (int)rndn(100), bound, cap, acc = (int[]){1, 1, 1, 2, 7, 0, 70000}[rndn(7)], ret, tries;
             u8* tmp = xalloc(n + 1); u8* dst; u8* cp;
             /* the content first (it may quote the dictionary and the declared history), then the place, then the bytes go there */
             while (j < n) { const char* p = pre[rndn(6)]; size_t l = strlen(p), m; if (l > n - j) l = n - j; memcpy(tmp + j, p, l); j += l; m = rndn(40); while (m-- && j < n) tmp[j++] = rndp(60) ? (u8)('0' + rndn(10)) : (u8)rnd(); if (j < n) tmp[j++] = '\n'; }
-            if (n >= 16 && ds >= 8 && rndp(70)) { size_t from = rndn((u32)ds), l = 8 + rndn(300); if (l > n) l = n; if (from + l > ds) l = ds - from; memcpy(tmp + rndn((u32)(n - l + 1)), dct + from, l); }
-            if (n >= 16 && ds >= 8 && rndp(30)) { size_t l = 4 + rndn(12); if (l > ds) l = ds; if (l > n) l = n; memcpy(tmp + rndn((u32)(n - l + 1)), E - l, l); }      /* the very end of the dictionary (a match running into the source) */
-            if (n >= 8 && ds >= 8 && rndp(25)) memcpy(tmp, E - 8, 8);
+            if (n >= 16 && qs >= 8 && rndp(70)) { size_t from = rndn((u32)qs), l = 8 + rndn(300); if (l > n) l = n; if (from + l > qs) l = qs - from; memcpy(tmp + rndn((u32)(n - l + 1)), qd + from, l); }
+            if (n >= 16 && qs >= 8 && rndp(30)) { size_t l = 4 + rndn(12); if (l > qs) l = qs; if (l > n) l = n; memcpy(tmp + rndn((u32)(n - l + 1)), qE - l, l); }      /* the very end of the dictionary (a match running into the source) */
+            if (n >= 8 && qs >= 8 && rndp(25)) memcpy(tmp, qE - 8, 8);
             if (n >= 16 && hl >= 16 && rndp(40)) { size_t from = rndn((u32)hl), l = 8 + rndn(200); if (l > n) l = n; if (from + l > hl) l = hl - from; memcpy(tmp + rndn((u32)(n - l + 1)), H + from, l); }
-            if (place < 45 && dictInArena && E + n <= arena + A) { src = (u8*)E; n_xs_contig++; }
-            else if (place < 62 && dictInArena && ds >= 8) { size_t tail = rndp(30) ? 1 + rndn(6) : 1 + rndn((u32)ds - 1); const u8* se = E - tail; if (se >= arena + n) { src = (u8*)se - n; n_xs_inside++; } }
-            for (tries = 0; !src && tries < 50; tries++) { u8* c = arena + rndn((u32)(A - n + 1)); if (!ds || c + n <= dct || c >= E) { src = c; n_xs_apart++; } }
+            if (place < 45 && dictInArena && E + n <= arena + A && !attached) { src = (u8*)E; n_xs_contig++; }
+            else if (place < 62 && dictInArena && ds >= 8 && !attached) { size_t tail = rndp(30) ? 1 + rndn(6) : 1 + rndn((u32)ds - 1); const u8* se = E - tail; if (se >= arena + n) { src = (u8*)se - n; n_xs_inside++; } }
+            for (tries = 0; !src && tries < 50; tries++) { u8* c = arena + rndn((u32)(A - n + 1)); if ((!ds || c + n <= dct || c >= E) && (!attached || c + n <= adS || c >= adE)) { src = c; n_xs_apart++; } }
             if (!src) { free(tmp); continue; }
             memcpy(src, tmp, n); free(tmp);
             bound = LZ4_compressBound((int)n); cap = rndp(88) ? bound : rndp(50) ? bound + (int)rndn(20) : (int)rndn((u32)bound + 1);
@@ -445,19 +446,30 @@ static void xstream_history(int thorough)
             else if (ret == 0 && cap >= bound) c_fail(&r, "continue_failed_at_bound");
             else if (ret > 0) { size_t hs = hl < 65536 ? hl : 65536; u8* chk = xalloc(n); int d = LZ4_decompress_safe_usingDict((const char*)dst, (char*)chk, ret, (int)n, (const char*)(H + hl - hs), (int)hs); n_blocks++;
                 if (d != (int)n || (n && memcmp(chk, cp, n) != 0)) c_fail(&r, "block_does_not_decode_against_history"); free(chk); }
+            if (attached) { n_xs_attached_calls++; if (memcmp(dstream, &dsCopy, sizeof dsCopy) != 0) c_fail(&r, "attached_dictionary_stream_modified"); }
             cur_clear();
             memcpy(H + hl, cp, n); hl += n;
             if (ret <= 0) { n_xs_failed++; done = 1; }
-        } else if (kind < 84) {                                                /* ---- LZ4_saveDict ---- */
+        } else if (kind < 79) {                                                /* ---- LZ4_saveDict ---- */
             int want = rndp(30) ? (int)rndn(80000) : rndp(50) ? 65536 : (int)rndn(3000), ret; u8* sb = arena + rndn((u32)(A - 66000));
             ret = LZ4_saveDict(st, (char*)sb, want); n_saves++; n_xs_save++; n_xs_ops++;
             nrec++; rec_int(&r, 1); rec_int(&r, (long long)(size_t)sb); rec_int(&r, want); rec_int(&r, ret);
-        } else if (kind < 94) {                                                /* ---- LZ4_loadDict / LZ4_loadDictSlow ---- */
+        } else if (kind < 88) {                                                /* ---- LZ4_loadDict / LZ4_loadDictSlow ---- */
             static const size_t dsz[] = {0, 5, 7, 8, 9, 40, 65535, 65536, 65537, 70000}; size_t n = rndp(60) ? 16 + rndn(rndp(70) ? 4000 : 66000) : dsz[rndn(10)]; int slow = rndp(40), ret; u8* d = arena + rndn((u32)(A - n + 1)); size_t j; u8* cp;
             for (j = 0; j < n; j++) d[j] = rndp(50) ? (u8)pre[rndn(4)][j % 16] : rndp(60) ? (u8)('0' + rndn(10)) : (u8)rnd();
             ret = slow ? LZ4_loadDictSlow(st, (const char*)d, (int)n) : LZ4_loadDict(st, (const char*)d, (int)n); n_loads++; n_xs_load++; n_xs_ops++;
             cp = xalloc(n + 1); memcpy(cp, d, n); copies[ncopies++] = cp;
             nrec++; rec_int(&r, 2); rec_int(&r, (long long)(size_t)d); rec_bytes(&r, cp, n); rec_int(&r, slow); rec_int(&r, ret);
+            memcpy(H, d, n); hl = n;
+        } else if (kind < 96) {                                                /* ---- reset + a dictionary stream prepared by LZ4_loadDict(Slow) attached ---- */
+            static const size_t dsz[] = {0, 7, 8, 40, 4096, 65535, 65536, 65537, 70000}; size_t n = rndp(65) ? 16 + rndn(rndp(70) ? 4000 : 66000) : dsz[rndn(9)]; int slow = rndp(40); u8* d = arena + rndn((u32)(A - n + 1)); size_t j; u8* cp;
+            for (j = 0; j < n; j++) d[j] = rndp(50) ? (u8)pre[rndn(4)][j % 16] : rndp(60) ? (u8)('0' + rndn(10)) : (u8)rnd();
+            LZ4_resetStream_fast(st);
+            if (slow) LZ4_loadDictSlow(dstream, (const char*)d, (int)n); else LZ4_loadDict(dstream, (const char*)d, (int)n);
+            LZ4_attach_dictionary(st, dstream); n_attach++; n_xs_attach++; n_xs_ops++;
+            memcpy(&dsCopy, dstream, sizeof dsCopy); adS = d; adE = d + n;
+            cp = xalloc(n + 1); memcpy(cp, d, n); copies[ncopies++] = cp;
+            nrec++; rec_int(&r, 4); rec_int(&r, (long long)(size_t)d); rec_bytes(&r, cp, n); rec_int(&r, slow);
             memcpy(H, d, n); hl = n;
         } else { LZ4_resetStream_fast(st); n_resets++; n_xs_reset++; n_xs_ops++; nrec++; rec_int(&r, 3); hl = 0; }
     }
@@ -465,7 +477,7 @@ static void xstream_history(int thorough)
     rec_write(&r); n_xs_hist++;
     for (k = 0; k < nouts; k++) free(outs[k]);
     for (k = 0; k < ncopies; k++) free(copies[k]);
-    free(arena); free(H); LZ4_freeStream(st);
+    free(arena); free(H); LZ4_freeStream(st); LZ4_freeStream(dstream);
 }
 
 static void ring_restart_scenario(int family)
@@ -515,7 +527,7 @@ int main(int argc, char** argv)
     if (!strcmp(mode, "c11") || !strcmp(mode, "c12") || !strcmp(mode, "c18")) for (i = 0; i < (thorough ? SH(8000) : 700); i++) xstream_history(thorough);
     harness_done();
     stat_u("calls", n_calls); stat_u("blocks_checked", n_blocks); stat_u("limited_output_failures", n_fail_ret0); stat_u("saveDict", n_saves); stat_u("loadDict", n_loads); stat_u("attach", n_attach);
-    stat_u("resets", n_resets); stat_u("fastReset_oneshots", n_oneshots); stat_u("continue_destSize", n_destsize); stat_u("ring_wraps", n_wraps); stat_u("streams_beyond_2GiB", n_renorm); stat_u("fastReset_histories", n_fr_hist); stat_u("contiguous_stream_sessions", n_cs_hist); stat_u("contiguous_stream_calls", n_cs_calls); stat_u("contiguous_stream_sessions_on_reused_stream", n_cs_reused); stat_u("contiguous_stream_sessions_starting_with_stale_table", n_cs_stale); stat_u("contiguous_stream_sessions_ended_by_failure", n_cs_failed); stat_u("fastReset_history_calls", n_fr_calls); stat_u("placed_stream_lives", n_xs_hist); stat_u("placed_stream_lives_through_2GiB_rescale", n_xs_renorm); stat_u("placed_stream_ops", n_xs_ops); stat_u("placed_stream_compress_contiguous", n_xs_contig); stat_u("placed_stream_compress_apart", n_xs_apart); stat_u("placed_stream_compress_overlapping_dictionary", n_xs_inside); stat_u("placed_stream_saveDict", n_xs_save); stat_u("placed_stream_loadDict", n_xs_load); stat_u("placed_stream_reset", n_xs_reset); stat_u("placed_stream_lives_ended_by_failure", n_xs_failed); stat_u("records", g_nrecords);
+    stat_u("resets", n_resets); stat_u("fastReset_oneshots", n_oneshots); stat_u("continue_destSize", n_destsize); stat_u("ring_wraps", n_wraps); stat_u("streams_beyond_2GiB", n_renorm); stat_u("fastReset_histories", n_fr_hist); stat_u("contiguous_stream_sessions", n_cs_hist); stat_u("contiguous_stream_calls", n_cs_calls); stat_u("contiguous_stream_sessions_on_reused_stream", n_cs_reused); stat_u("contiguous_stream_sessions_starting_with_stale_table", n_cs_stale); stat_u("contiguous_stream_sessions_ended_by_failure", n_cs_failed); stat_u("fastReset_history_calls", n_fr_calls); stat_u("placed_stream_lives", n_xs_hist); stat_u("placed_stream_lives_through_2GiB_rescale", n_xs_renorm); stat_u("placed_stream_ops", n_xs_ops); stat_u("placed_stream_compress_contiguous", n_xs_contig); stat_u("placed_stream_compress_apart", n_xs_apart); stat_u("placed_stream_compress_overlapping_dictionary", n_xs_inside); stat_u("placed_stream_saveDict", n_xs_save); stat_u("placed_stream_loadDict", n_xs_load); stat_u("placed_stream_reset", n_xs_reset); stat_u("placed_stream_attach", n_xs_attach); stat_u("placed_stream_compress_with_attached_dictionary", n_xs_attached_calls); stat_u("placed_stream_lives_ended_by_failure", n_xs_failed); stat_u("records", g_nrecords);
     stat_u("cfails", (u64)g_cfails);
     free(dictbuf); free(g_hist); free(g_ring);
     return g_cfails ? 1 : 0;
